@@ -213,6 +213,13 @@ class Rewriter:
             text = text[:m.start()] + self.pad(repl, whole) + text[end:]
             pos = m.start() + len(repl)
 
+    def unwraps(self, text):
+        """R7: .unwrap() -> .vx_expect() (abort semantics) unless the function is `noabort`"""
+        text, n = re.subn(r"\.\s*unwrap\s*\(\s*\)", ".vx_expect()", text)
+        if n:
+            self.count("R7 .unwrap() -> .vx_expect() (abort on None/Err)", n)
+        return text
+
     def methods(self, text):
         """R7: .expect("..") -> .vx_expect()"""
         pat = re.compile(r"\.\s*expect\s*\(")
@@ -362,7 +369,7 @@ class Unit:
                 self.do_fn(s[len("//@fn"):].strip(), block, org)
                 i = j + 1
                 continue
-            if s.startswith("//@"):
+            if s.startswith("//@") and not s.startswith("//@@"):
                 raise ExtractError("unknown directive: " + s)
             self.out.append((ln, ("template",) + org))
             i += 1
@@ -438,6 +445,30 @@ class Unit:
         self.types.append({"name": name, "file": rel, "line": line0})
         for k, ln in enumerate(text.split("\n")):
             self.out.append((ln, ("repo", rel, line0 + k)))
+        # derived traits: only what the real item derives may be assumed structural
+        derives = set()
+        for a in getattr(it, "attrs", []):
+            m2 = re.search(r"derive\s*\(([^)]*)\)", a)
+            if m2:
+                derives.update(x.strip().split("::")[-1] for x in m2.group(1).split(","))
+        gen = []
+        for tr in [x for x in str(opts.get("derive", "")).split(",") if x]:
+            if tr not in derives:
+                raise ExtractError("anchor lost: %s no longer derives %s" % (name, tr))
+            if tr == "Clone":
+                gen.append("impl Clone for %s { #[verifier::external_body] fn clone(&self) -> (r: Self) ensures r == *self { unimplemented!() } }" % name)
+            elif tr == "Copy":
+                gen.append("impl Copy for %s {}" % name)
+            elif tr == "PartialEq":
+                gen.append("impl PartialEq for %s { #[verifier::external_body] fn eq(&self, other: &Self) -> (r: bool) { unimplemented!() } }" % name)
+                gen.append("impl vstd::std_specs::cmp::PartialEqSpecImpl for %s { open spec fn obeys_eq_spec() -> bool { true } open spec fn eq_spec(&self, other: &Self) -> bool { *self == *other } }" % name)
+            elif tr == "Eq":
+                gen.append("impl Eq for %s {}" % name)
+            else:
+                raise ExtractError("derive=%s not supported" % tr)
+            rw.count("R5 derive(%s) on %s modelled as structural" % (tr, name))
+        for g in gen:
+            self.out.append((g, ("generated", "derive", 0)))
 
     # ------------------------------------------------------------------
     def do_fn(self, spec, block, org):
@@ -520,7 +551,9 @@ class Unit:
         body = rw.attrs(body)
         body = rw.drop_use_lines(body)
         body = rw.macros(body)
-        body = rw.methods(body)
+        if not opts.get("noabort"):
+            body = rw.methods(body)
+            body = rw.unwraps(body)
         body = rw.apply_maps(body, self.maps, "body")
         for rx, repl in subs:
             body, nsub = rx.subn(repl, body)
